@@ -4,6 +4,17 @@ NOT_APPLICABLE = {('C%02d' % i): TODO for i in range(1, 21)}
 R_NOTE = ('R-model: floats are mathematical reals, float literals are the decimal rationals written in the source, '
           'transcendental functions are uninterpreted with sound axiom instances; IEEE rounding is outside the claim. ')
 CHECKS = {
+    'C16': {
+        'text': 'Bounded symbolic execution + SMT: rotation_matrix, enu2xyz/xyz2enu, vcv_cart2local/vcv_local2cart (3x3 and 3x1 column), '
+                'error_ellipse, relative_error and k_val95 (real source, numpy facade) on symbolic latitude/longitude, vectors and '
+                'covariances; outputs proved entry-wise equal to the textbook east-north-up frame and the congruences R^T V R / R V R^T; '
+                'orthonormality, det = +1, inverse and length preservation, invariance of symmetry/trace/principal minors/determinant, round '
+                'trip, ellipse trace/determinant/ordering/eigenvector relations are NRA lemmas modulo sin^2+cos^2 = 1 (portfolio); k_val95 '
+                'branch structure on a symbolic integer plus all 120 table indices.',
+        'design_ref': 'DESIGN.md section 7 C16',
+        'note': R_NOTE + 'NOT claimed: equality of the tabulated coverage factors with Student-t quantiles (no solver theory).',
+        'technique': 'symbolic execution of the real Python source + SMT (z3 QF_NRA portfolio), witness replay',
+    },
     'C01': {
         'text': 'Bounded symbolic execution + SMT: geo2grid, alpha_coeff, rect_radius and Ellipsoid.__init__ (real source) run on a symbolic '
                 'ellipsoid (a, 1/f), symbolic Projection, symbolic latitude/longitude (float and angle-object arguments) with explicit '
